@@ -18,6 +18,7 @@
 //                                                blocks and calls util::createId twice, the parent creates K more
 //                                                blocks; all ids come back through pipes.  Answer:
 //                                                OK forks=N k=K wellformed=<0|1> common=<0|1>
+//   reset                                        forget the file and its process (malformed-stream cases start so)
 //   procs <k> <n>                                the runtime experiment (real clock): k processes started
 //                                                together, n ids each; only used to replay a finding
 // Answer to every line:  OK <res> F<w><s> <k>:<w><s>... d=<0|1>
@@ -645,6 +646,11 @@ int main(int argc, char **argv) {
         if (t[0] == "procs") {
             try { out = "OK " + procs(dec_int(t.at(1)), dec_int(t.at(2))); } catch (...) { out = "ERR " + classify(); }
             std::cout << n << " " << out << "\n" << std::flush;
+            continue;
+        }
+        if (t[0] == "reset") {          // no file, no process: what follows (until the next "new") is refused
+            stop_worker();
+            std::cout << n << " OK -\n" << std::flush;
             continue;
         }
         if (t[0] == "forks") {
